@@ -60,7 +60,8 @@ def read_wiring(ck, mod, kmain=3, kff=2):
                     else:
                         i = main_files.index(f)
                         d[pysym.SymInt(MK[i])] = ("value", f, str(MK[i]))
-                self_ = types.SimpleNamespace(get_bounds=get_bounds, _get_file_list=gfl, _add_metadata=add)
+                # a reader created before the first write of the channel: no field names known yet (visibility, C20)
+                self_ = types.SimpleNamespace(get_bounds=get_bounds, _get_file_list=gfl, _add_metadata=add, _fields=None)
                 kw = dict(columns=COLS, method=method)
                 if has_start:
                     kw["start_sample"] = pysym.SymInt(S0)
